@@ -1073,7 +1073,7 @@ class Translator:
         f = self.f
         if p[1] == "heap" and getattr(f, "state0", None):
             a, b = interval(off, self.ranges())
-            if a < -ADDR_MAX or b > ADDR_MAX:
+            if a < -2 * ADDR_MAX or b > 2 * ADDR_MAX:
                 base = f.state0[0]
                 f.nacc += 1
                 f.events.append({"t": "acc", "id": f.nacc, "pc": st.pc, "obj": "address-space", "oid": 0,
@@ -1284,7 +1284,7 @@ class Translator:
             return
         v = self.newvar(k, lo, (1 << 31) - 1, "extern", doc)
         # what the EVP interface guarantees: 0 <= outl <= inl + block_size - 1
-        self.f.hyps.append(("extern", ("le", v, add(upper, C(blk - 1))), v[1]))
+        self.f.hyps.append(("extern", OR(("lt", upper, C(0)), ("le", v, add(upper, C(blk - 1)))), v[1]))
         st.env[k] = ("int", v)
 
     def do_malloc(self, st, n, c_n):
@@ -1329,7 +1329,9 @@ class Translator:
             if u in ("y#", "s#"):
                 p, ln = names[i], names[i + 1]
                 i += 2
-                lv = self.newvar(ln, 0, (1 << 63) - 1, "arg", "length reported by CPython for %s" % p)
+                # ASSUMPTION (documented): byte-string arguments are shorter than 2 GiB, so that their
+                # length survives the conversions to `int` the OpenSSL interface imposes.
+                lv = self.newvar(ln, 0, (1 << 31) - 1, "arg", "length reported by CPython for %s (assumed < 2^31)" % p)
                 o = Obj("arg:" + p, 20 + len(f.objs), lv, p, ln)
                 f.objs[o.name] = o
                 if optional:
@@ -1475,7 +1477,7 @@ def find_witness(f, ev, budget=600000):
                 pass
         if v in ext:
             try:
-                x = ev_e(ext[v][1][2], env)
+                x = ev_e(ext[v][1][2][2], env)
                 out += [x, x - 1, 0]
             except KeyError:
                 pass
@@ -1666,9 +1668,9 @@ def emit_coq(model):
                 loopvar[n] = ev["loop"]["var"] if ev["loop"] else None
         # contract
         if clauses:
-            w("Definition K_%s %s : Prop :=\n  %s." % (name, tbinder, " /\\ ".join(
-                ("(forall %s, vcprop_%s_%d %s)" % (loopvar[n], name, n, binder)) if loopvar[n] else ("vcprop_%s_%d %s" % (name, n, binder))
-                for n in clauses)))
+            body = {ev["id"]: vc_statement(f, ev) for ev in f.events if ev["t"] == "acc"}
+            w("Definition K_%s %s : Prop :=\n  %s." % (name, tbinder, " /\\\n  ".join(
+                ("(forall %s, %s)" % (loopvar[n], body[n])) if loopvar[n] else ("(%s)" % body[n]) for n in clauses)))
         else:
             w("Definition K_%s %s : Prop := True." % (name, tbinder))
         w("Definition unconditional_%s : bool := %s." % (name, "false" if clauses else "true"))
@@ -1677,19 +1679,14 @@ def emit_coq(model):
             name, binder or "(_ : unit)", name, binder, name, binder, name, binder))
         ks = " ".join("vcprop_%s_%d" % (name, n) for n in clauses)
         w("Proof. unfold events_safe, R_%s, K_%s, ev_%s%s; intros; repeat apply Forall_cons; try apply Forall_nil; unfold ev_safe, acc_ok; cbn [a_off a_len a_size]; cbv beta; first [ exact I | intros Hg iloop Hloop; repeat match goal with H : _ /\\ _ |- _ => destruct H end; repeat match goal with H : (forall x : Z, _) |- _ => specialize (H iloop) end; repeat apply Forall_cons; try apply Forall_nil; cbv beta; cbn [a_off a_len a_size]; lia | intros; lia ]. Qed."
-          % (name, name, name, (", " + ks.replace(" ", ", ")) if ks else ""))
-        # invariant at returns / pos at rejections (Buffer)
+          % (name, name, name, ""))
+        # Buffer methods: returns keep the cursor inside the buffer, rejections leave it unchanged
         if f.is_buffer_method:
             base, pos, end = f.state0
-            k = 0
-            for ev in f.events:
-                if ev["t"] == "ret":
-                    pass
-                elif ev["t"] == "rej":
-                    k += 1
-                    w("Lemma rejpos_%s_%d : forall %s, R_%s %s -> %s -> %s = %s." % (
-                        name, k, binder, name, binder, cq_p(ev["pc"]), cq_e(ev["pos"]), cq_e(sub(pos, base))))
-                    w("Proof. unfold R_%s; intros; lia. Qed." % name)
+            w("Lemma term_%s : forall %s, R_%s %s -> K_%s %s -> Forall (ev_term_ok %s %s) (ev_%s %s)." % (
+                name, binder, name, binder, name, binder, cq_e(sub(pos, base)), cq_e(sub(end, base)), name, binder))
+            w("Proof. unfold R_%s, K_%s, ev_%s%s; intros; repeat apply Forall_cons; try apply Forall_nil; unfold ev_term_ok; first [ exact I | intros; lia ]. Qed."
+              % (name, name, name, ""))
         w("")
         summary.append((name, len([e for e in f.events if e["t"] == "acc"]), clauses))
         exec_cases.append((fi, name, vs))
